@@ -533,12 +533,14 @@ class PrinterRun(Contract):
 
 
 class SerializeVariant(Variant):
-    prop_ids = ("C07",)
+    prop_ids = ("C07", "C09")          # the text of a command is what the script round trip (C09) reads back
     qualname = CMD + ".serialize"
 
     def __init__(self, world, cmd, nargs=0):
         self.world, self.cmd, self.nargs = world, cmd, nargs
         self.name = "serialize:%s/%d" % (cmd, nargs)
+        if cmd == "define-fun":
+            self.replay_kind = "roundtrip"      # scripts with definitions are written and read back by that search
 
     def setup(self, ex):
         W = self.world
@@ -554,6 +556,10 @@ class SerializeVariant(Variant):
 
         def write(exx, a, kw):
             s = a[0]
+            if is_z3(s) and s.sort() == z3.StringSort():
+                # a text built from a symbolic name that did not pass through quote(): an unquoted spelling (one raw piece)
+                exx.ghost["trace"].append(exx.ghost["pieces"].new("raw", s))
+                return None
             if not isinstance(s, str):
                 from pyvc.symex import Unsupported
                 raise Unsupported("write of a non-concrete string %r" % (s,))
@@ -586,6 +592,17 @@ class SerializeVariant(Variant):
         elif c == "set-logic":
             self.logic = P.new("logicname", 0)
             args = [self.logic]
+        elif c == "define-fun":
+            # (define-fun NAME ((p S) ...) S body): nargs parameters (symbols) + the body
+            self.params = self.terms
+            for sym in self.params:
+                ex.assume(S.op(sym) == S.SYMBOL)
+                W.learn(ex, sym, op=S.SYMBOL, k=0)
+            self.fname = z3.Const("defined_name", z3.StringSort())
+            self.rtype = z3.Const("return_sort", Ty)
+            self.body = z3.Const("body", Node)
+            W.touch(ex, self.body)
+            args = [self.fname, list(self.params), self.rtype, self.body]
         else:
             args = []
         cmdo = Obj(CMD, {"name": c, "args": args}, tag="cmd")
@@ -617,6 +634,11 @@ class SerializeVariant(Variant):
             want = ["(", atom("declare-sort"), atom(("sortname", 0)), atom(("int", self.arity)), ")"]
         elif c == "set-logic":
             want = ["(", atom("set-logic"), atom(("logicname", 0)), ")"]
+        elif c == "define-fun":
+            want = ["(", atom("define-fun"), atom(("qname", self.fname)), "("]
+            for sym in self.params:
+                want += ["(", atom(("qname", S.pl_str(sym))), atom(("sort", S.pl_ty(sym))), ")"]
+            want += [")", atom(("sort", self.rtype)), atom(("node", self.body)), ")"]
         else:
             want = ["(", atom(c), ")"]
         m = match(ex, got, want)
@@ -631,7 +653,7 @@ def variants(world, tier="quick", only=None):
     extra = [NewSymbolVariant(world), PrinterTopVariant(world)]
     for c, n in (("assert", 1), ("get-value", 1), ("get-value", 2), ("declare-fun", 1), ("declare-const", 1), ("push", 0), ("pop", 0),
                  ("declare-sort", 0), ("set-logic", 0), ("check-sat", 0), ("exit", 0), ("reset-assertions", 0),
-                 ("get-model", 0)):
+                 ("get-model", 0), ("define-fun", 0), ("define-fun", 1), ("define-fun", 2)):
         extra.append(SerializeVariant(world, c, n))
     if only:
         extra = [v for v in extra if any(o in v.name for o in only)]
